@@ -139,6 +139,8 @@ def streams(ctx):
                         problems.append(f"{name}: versions were fetched and stored but the routine does not report it as fetched (reported {reported})")
                     if name in reported and kind != "ok":
                         problems.append(f"{name} reported as fetched although the registry answered {kind}")
+                    if name in reported and kind == "ok" and vs and not stored and [j[0] for j in jobs].count(name) == 1:
+                        problems.append(f"{name} reported as fetched although its versions are not in the cache (stored: {have})")
             if problems:
                 der.append({"req": vlib.line("latest.same", "1.0.0", "1.0.0"), "index": b - 2,
                             "check": (lambda o, problems=problems: ("violation", "; ".join(problems))),
